@@ -158,6 +158,30 @@ class Job:
             raise RuntimeError("job %d ends with an exception" % self.j)      # a job may fail; its worker is still the pool's
 
 
+class DelayThread:
+    """delay-bounded schedule: the named thread runs first whenever it can, for k of its steps; from then on it is held back for as
+    long as anything else can run (timers included), and continues only when it is the only one left.  One long delay at one point
+    of one thread reaches interleavings that need several preemptions of the ordinary kind."""
+    wants_timers = True
+
+    def __init__(self, name, k):
+        self.name, self.k, self.n = name, k, 0
+        self.names = []
+
+    def __call__(self, names, sched):
+        timers = getattr(sched, "timer_names", set())
+        if self.name in names and self.name not in timers and self.n < self.k:
+            self.n += 1
+            pick = self.name
+        else:
+            rest = [n for n in names if n != self.name]
+            soft = sched.soft
+            plain = [n for n in rest if n not in soft and n not in timers]
+            pick = (plain or [n for n in rest if n not in timers] or rest or names)[0]
+        self.names.append(pick)
+        return pick
+
+
 def run_once(T, config, chooser, script, size, mn, eager=False, raising=False):
     """eager: the submitting thread does not pause after a submission that is followed by another submission or by the close;
     raising: every second job ends with an exception"""
@@ -248,6 +272,8 @@ def diagnose(tr, size):
     evs = [e["e"] for e in tr]
     if "ClosedSet" in evs and "Hand" in evs[evs.index("ClosedSet"):]:
         return "C18.JobHandedOverAfterPoolClosed"
+    if "CloseRet" in evs and "JobStart" in evs[evs.index("CloseRet"):]:
+        return "C18.JobStartedAfterCloseReturned"
     starts = collections.Counter(e["j"] for e in tr if e["e"] == "JobStart")
     if any(v > 1 for v in starts.values()):
         return "C18.RunTwice"
@@ -410,6 +436,16 @@ def run(ctx):
             for ch, tr in S.explore(once_sc, max_preemptions=2, limit=ctx.pick(150, 1500), rng=rng, random_runs=0):
                 runs += 1
                 keep(tr, {"script": list(script), "size": size, "min": mn, "schedule": list(ch.names), "eager": True, "raising": False})
+    # one worker held back at every one of its first steps while everything else (the close included) runs as far as it can
+    for script in (("submit", "close"), ("submit", "release", "submit", "close"), ("submit", "submit", "close")):
+        for (size, mn) in ((1, 1), (2, 1)):
+            for w in ("w1", "w2"):
+                for k in range(1, ctx.pick(14, 30)):
+                    ch = DelayThread(w, k)
+                    tr = run_once(T, config, ch, script, size, mn, eager=True)
+                    runs += 1
+                    keep(tr, {"script": list(script), "size": size, "min": mn, "schedule": list(ch.names), "eager": True, "raising": False,
+                              "delayed": [w, k]})
     # grow / shrink / grow again: the pool must scale up a second time after its surplus workers have retired
     for (size, mn) in ((2, 1), (3, 1), (3, 2), (2, 2)):
         for rounds in (2, 3) if size == 2 else (2,):
